@@ -51,7 +51,13 @@ type StructV struct{ f []Value }
 type ArrayV struct{ e []Value }
 type TupleV struct{ v []Value }
 type FloatV struct{ f float64 }
-type Poison struct{ why string }
+// Poison marks a value the engine cannot represent. dc ("don't care") poisons arise only on paths whose panic VC has
+// been raised and assumed away (nil load, index out of range, no return because every path panics) or that the solver
+// showed infeasible; merging them with a real value keeps the real value.
+type Poison struct {
+	why string
+	dc  bool
+}
 
 // Cell is a mutable memory location tree.
 type Cell struct {
@@ -61,6 +67,7 @@ type Cell struct {
 	fields []*Cell // struct
 	elems  []*Cell // array
 	label  string
+	appendGrown bool // array allocated by a reallocating append
 	allocG *Term // guard under which the cell was allocated (stores under the same guard are unconditional)
 }
 
@@ -163,7 +170,7 @@ func zero(t types.Type) Value {
 		}
 		w, _ := intWidth(u)
 		if w < 0 {
-			return Poison{"zero of " + t.String()}
+			return Poison{why: "zero of " + t.String()}
 		}
 		return BV(w, 0)
 	case *types.Pointer, *types.Map, *types.Chan:
@@ -194,9 +201,9 @@ func zero(t types.Type) Value {
 		}
 		return TupleV{v}
 	case *types.TypeParam:
-		return Poison{"zero of type param"}
+		return Poison{why: "zero of type param"}
 	}
-	return Poison{"zero of " + t.String()}
+	return Poison{why: "zero of " + t.String()}
 }
 
 func newCell(t types.Type, init Value) *Cell {
@@ -321,11 +328,12 @@ func mergeRef(c *Term, a, b RefV) RefV {
 	return RefV{out}
 }
 
-const pruneAltsAbove = 5
+var pruneAltsAbove = 5
 
 var theEngine *Engine
 
-// pruneAlts drops alternatives whose condition is unsatisfiable together with the current block guard.
+// pruneAlts drops alternatives whose condition is unsatisfiable under the assumptions made so far (NOT the current
+// block guard: merged values are stored in cells that outlive the block).
 func (e *Engine) pruneAlts(alts []RefAlt) []RefAlt {
 	if e.bestEffort > 0 || curGuard == nil {
 		return alts
@@ -339,7 +347,7 @@ func (e *Engine) pruneAlts(alts []RefAlt) []RefAlt {
 	}
 	for _, a := range alts {
 		e.PruneQueries++
-		if e.feasibleW(And(curGuard, a.c), "prune") {
+		if e.feasibleW(a.c, "prune") {
 			out = append(out, a)
 		}
 	}
@@ -379,29 +387,38 @@ func iteV(c *Term, a, b Value) Value {
 	if b == nil {
 		return a
 	}
+	if p, ok := a.(Poison); ok && p.dc {
+		return b
+	}
+	if p, ok := b.(Poison); ok && p.dc {
+		return a
+	}
+	if p, ok := b.(Poison); ok {
+		return p
+	}
 	switch x := a.(type) {
 	case *Term:
 		y, ok := b.(*Term)
 		if !ok {
-			return Poison{"ite kind mismatch (term)"}
+			return Poison{why: "ite kind mismatch (term)"}
 		}
 		return Ite(c, x, y)
 	case RefV:
 		y, ok := b.(RefV)
 		if !ok {
-			return Poison{"ite kind mismatch (ref)"}
+			return Poison{why: "ite kind mismatch (ref)"}
 		}
 		return mergeRef(c, x, y)
 	case SliceV:
 		y, ok := b.(SliceV)
 		if !ok {
-			return Poison{"ite kind mismatch (slice)"}
+			return Poison{why: "ite kind mismatch (slice)"}
 		}
 		return SliceV{mergeRef(c, x.arr, y.arr), Ite(c, x.off, y.off), Ite(c, x.len, y.len), Ite(c, x.cap, y.cap)}
 	case StructV:
 		y, ok := b.(StructV)
 		if !ok || len(x.f) != len(y.f) {
-			return Poison{"ite kind mismatch (struct)"}
+			return Poison{why: "ite kind mismatch (struct)"}
 		}
 		f := make([]Value, len(x.f))
 		for i := range f {
@@ -411,7 +428,7 @@ func iteV(c *Term, a, b Value) Value {
 	case ArrayV:
 		y, ok := b.(ArrayV)
 		if !ok || len(x.e) != len(y.e) {
-			return Poison{"ite kind mismatch (array)"}
+			return Poison{why: "ite kind mismatch (array)"}
 		}
 		e := make([]Value, len(x.e))
 		for i := range e {
@@ -421,7 +438,7 @@ func iteV(c *Term, a, b Value) Value {
 	case TupleV:
 		y, ok := b.(TupleV)
 		if !ok || len(x.v) != len(y.v) {
-			return Poison{"ite kind mismatch (tuple)"}
+			return Poison{why: "ite kind mismatch (tuple)"}
 		}
 		v := make([]Value, len(x.v))
 		for i := range v {
@@ -431,7 +448,7 @@ func iteV(c *Term, a, b Value) Value {
 	case IfaceV:
 		y, ok := b.(IfaceV)
 		if !ok {
-			return Poison{"ite kind mismatch (iface)"}
+			return Poison{why: "ite kind mismatch (iface)"}
 		}
 		var out []IfaceAlt
 		add := func(cond *Term, al IfaceAlt) {
@@ -458,7 +475,7 @@ func iteV(c *Term, a, b Value) Value {
 	case FuncV:
 		y, ok := b.(FuncV)
 		if !ok {
-			return Poison{"ite kind mismatch (func)"}
+			return Poison{why: "ite kind mismatch (func)"}
 		}
 		var out []FuncAlt
 		for _, al := range x.alts {
@@ -480,7 +497,7 @@ func iteV(c *Term, a, b Value) Value {
 	case StringV:
 		y, ok := b.(StringV)
 		if !ok {
-			return Poison{"ite kind mismatch (string)"}
+			return Poison{why: "ite kind mismatch (string)"}
 		}
 		var out []StrAlt
 		add := func(cond *Term, s string) {
@@ -510,11 +527,11 @@ func iteV(c *Term, a, b Value) Value {
 		if y, ok := b.(FloatV); ok && (x.f == y.f) {
 			return x
 		}
-		return Poison{"symbolic float"}
+		return Poison{why: "symbolic float"}
 	case Poison:
 		return x
 	}
-	return Poison{fmt.Sprintf("ite of %T", a)}
+	return Poison{why: fmt.Sprintf("ite of %T", a)}
 }
 
 // eqV returns the term for a == b (Go semantics) for comparable values.
